@@ -111,6 +111,8 @@ def model_classes(mdl, ref=None, nblocks=None):
     sites = mdl["sites"]
     if any(s[1] > 1 for s in sites):
         c.append("multi-orbital")
+    if any(s[1] > 4 for s in sites):
+        c.append("orbital-index>=4")
     if any(s[2] != 2 for s in sites):
         c.append("non-spin-half-site")
     if len({(s[1], s[2]) for s in sites}) > 1:
